@@ -44,6 +44,11 @@ var c13Bundles = [][]c13File{
 	{{"one.soy", "{namespace a autoescape=\"false\"}\n/** @param x */\n{template .t}\n{$x.x}{call .t2 data=\"all\"/}\n{/template}\n"},
 		{"two.soy", "{namespace a}\n/** @param x */\n{template .t2}\n{$x.x}{call b.u data=\"all\"/}\n{/template}\n"},
 		{"three.soy", "{namespace b autoescape=\"true\"}\n/** @param x */\n{template .u}\n{$x.x}\n{/template}\n"}},
+	// 14: three files that each fail to parse, the first one early, the last one at the end of a long
+	// file (which error is reported must not depend on how the parses are scheduled)
+	{{"one.soy", "{namespace a}\n{/switch}\n"},
+		{"two.soy", "{namespace b}\n/** */\n{template .u}\n{foreach $x in}\n{/template}\n"},
+		{"three.soy", "{namespace c}\n/** */\n{template .v1}\nsome text {sp} and more text\n{/template}\n/** @param x */\n{template .v2}\n{if $x}a{elseif not $x}b{else}c{/if}{$x|escapeUri}\n{/template}\n/** */\n{template .v3}\n{'unterminated}\n{/template}\n"}},
 }
 
 var c13Globals = data.Map{"G_MAP": data.Map{"k2": data.Int(2), "k1": data.String("v")}, "G_LIST": data.List{data.Int(1), data.String("s")}, "G_STR": data.String("g")}
@@ -133,13 +138,14 @@ func c13Run(t, perm int) (decision, errText, rest string) {
 func H_bundle(t, perm int) {
 	d0, e0, r0 := c13Run(t, 0)
 	verifMapOrder(verifMapOrderArg())
+	verifSchedChoice() // the compared run also under the other run-queue discipline
 	d1, e1, r1 := c13Run(t, perm)
 	verifMapOrder("")
 	verifObserve("decision", d0)
 	verifObserve("err", e0)
 	verifAssert(d0 != "unstable" && d1 != "unstable", "C13: compiling the same bundle twice gives different results")
 	verifAssert(d0 == d1, "C13: accept/reject decision depends on iteration or file order")
-	multi := t == 5 || t == 6 // several independent errors / duplicate names: which is reported first may depend on file order
+	multi := t == 5 || t == 6 || t == 14 // several independent errors / duplicate names: which is reported first may depend on file order
 	if !(multi && perm != 0) {
 		verifAssert(e0 == e1, "C13: error text depends on iteration or file order")
 		verifAssert(r0 == r1, "C13: message ids, rendered output or generated JavaScript depend on iteration or file order")
